@@ -24,6 +24,13 @@ class ToolError(Exception):
     pass
 
 
+class HarnessCrash(ToolError):
+    """The harness process (which runs the code under test in-process) died from a signal / abort."""
+    def __init__(self, msg, rc):
+        ToolError.__init__(self, msg)
+        self.rc = rc
+
+
 def log(*a):
     print(*a, flush=True)
 
@@ -55,6 +62,8 @@ def harness(args, timeout=900, check=True):
                            text=True, timeout=timeout)
     except subprocess.TimeoutExpired:
         raise ToolError("harness %s did not finish within %s s" % (args[:6], timeout))
+    if check and (p.returncode < 0 or p.returncode in (134, 137, 139)):
+        raise HarnessCrash("harness %s died with rc=%s: %s" % (args[:6], p.returncode, p.stderr[-1500:]), p.returncode)
     if check and p.returncode != 0:
         raise ToolError("harness %s failed rc=%s: %s" % (args[:3], p.returncode, p.stderr[-2000:]))
     out = p.stdout.strip().splitlines()
